@@ -28,7 +28,11 @@ fn main() {
     let seed: u64 = a[1].parse().unwrap();
     let rounds: usize = a[2].parse().unwrap();
     let corpus = eng::Corpus::load();
-    let utts: Vec<Vec<String>> = vec![corpus.lines[0..3].to_vec(), corpus.lines[40..42].to_vec(), corpus.lines[100..104].to_vec(), vec![]];
+    let mut utts: Vec<Vec<String>> = vec![corpus.lines[0..3].to_vec(), corpus.lines[40..42].to_vec(), corpus.lines[100..104].to_vec(), vec![]];
+    if corpus.extras.len() >= 8 {
+        utts.push(corpus.extras[0..4].to_vec());
+        utts.push(corpus.extras[8..corpus.extras.len().min(12)].to_vec());
+    }
     let log: Arc<Mutex<Vec<serde_json::Value>>> = Arc::new(Mutex::new(Vec::new()));
     let ticket = Arc::new(AtomicUsize::new(0));
     let mut rng0 = Rng::new(seed);
